@@ -47,7 +47,7 @@ def checkValidImpl (S : Schema) (namePos : Pos) (fields : List FieldDef) (implem
         match f.args.find? (·.name == ia.name) with
         | none => [(.InterfaceArgumentNotImplemented, f.pos)]
         | some fa => if !(fa.ty.same ia.ty) then [(.ArgumentTypeMisMatchWithInterface, fa.pos)] else []) ++
-      ((f.args.filter fun fa => impF.args.all (·.name != fa.name) && fa.ty.isNonNull).map
+      ((f.args.filter fun fa => impF.args.all (·.name != fa.name) && InputValueDef.required fa).map
         fun fa => (ErrKind.ArgumentTypeNonNullAgainstInterface, fa.pos)) ++
       (if isSubtype S f.ty impF.ty == some false then [(.FieldTypeMisMatchWithInterface, f.pos)] else [])
 
@@ -95,10 +95,10 @@ def checkDirectiveRecursion (T : TsDoc) (d : DirectiveDef) : List Err :=
 
 /-- the type of an output field (object / interface): `NoInputType` for an input object type,
     `UnknownType` for an undefined one -/
-def checkOutputFieldType (S : Schema) (reportUnknown : Bool) (ty : GType) : List Err :=
+def checkOutputFieldType (S : Schema) (ty : GType) : List Err :=
   match S.kindOf? ty.unwrapped with
   | some k => if Schema.isOutputKind k then [] else [(.NoInputType, typePos ty)]
-  | none => if reportUnknown then [(.UnknownType, typePos ty)] else []
+  | none => [(.UnknownType, typePos ty)]
 
 /-- the type of an argument or input field -/
 def checkInputValueType (S : Schema) (ty : GType) : List Err :=
@@ -115,12 +115,12 @@ def checkArgsDef (S : Schema) (args : List InputValueDef) : List Err :=
     checkDirectives S "ARGUMENT_DEFINITION" v.dirs) [] args
 
 /-- the `for f in fields` loop shared by `check_object` and `check_interface` -/
-def checkFields (S : Schema) (reportUnknown : Bool) (fields : List FieldDef) : List Err :=
+def checkFields (S : Schema) (fields : List FieldDef) : List Err :=
   loopSeen (·.name) (fun dup (f : FieldDef) =>
     (if dup then [(ErrKind.DuplicatedName, f.pos)] else []) ++
     (if reserved f.name then [(.UnscoUnsco, f.pos)] else []) ++
     checkDirectives S "FIELD_DEFINITION" f.dirs ++
-    checkOutputFieldType S reportUnknown f.ty ++
+    checkOutputFieldType S f.ty ++
     checkArgsDef S f.args) [] fields
 
 /-- the `for interface in object.implements` loop of `check_object` -/
@@ -152,6 +152,7 @@ def checkUnionMembers (T : TsDoc) (members : List (Name × Pos)) : List Err :=
 def checkEnumValues (S : Schema) (values : List EnumValueDef) : List Err :=
   loopSeen (·.name) (fun dup (v : EnumValueDef) =>
     (if dup then [(ErrKind.DuplicatedName, v.pos)] else []) ++
+    (if reserved v.name then [(.UnscoUnsco, v.pos)] else []) ++
     checkDirectives S "ENUM_VALUE" v.dirs) [] values
 
 def checkInputFields (S : Schema) (inputs : List InputValueDef) : List Err :=
@@ -171,8 +172,8 @@ def checkTypeDef (T : TsDoc) (S : Schema) (t : TypeDef) : List Err :=
   checkDirectives S (locationOfKind t.kind) t.dirs ++
   (match t.kind with
    | .scalar => []
-   | .object => checkFields S true t.fields ++ checkObjectImplements T S t
-   | .interface => checkFields S false t.fields ++ checkInterfaceImplements T S t
+   | .object => checkFields S t.fields ++ checkObjectImplements T S t
+   | .interface => checkFields S t.fields ++ checkInterfaceImplements T S t
    | .union => checkUnionMembers T t.members
    | .enum => checkEnumValues S t.values
    | .input => checkInputFields S t.inputs)
